@@ -130,6 +130,17 @@ def random_cases(rng, tier):
         yield {"tpl": tp, "geoms": geoms, "values": vals, "scalar": scalar, "fill": fill, "dt": dt}
 
 
+LINE_KINDS = {"TimeStamp", "Point", "MultiPoint", "LineString", "MultiLineString"}
+
+
+def finding_key(obs, clause):
+    """AllTouchedSupersetLines (decided in TLA+: a cell marked by a line/point geometry in the plain run is lost with
+    all_touched=True) is the open finding about rasterio's two line algorithms; every other reject keeps its clause name."""
+    if clause == "AllTouchedSupersetLines" and any(g["type"] in LINE_KINDS for g in obs["in"]["geoms"]):
+        return "AllTouchedSuperset/line-or-point-geometry"
+    return clause
+
+
 def nontrivial(o):
     r = o["out"].get("r1", {})
     return bool(r.get("cells")) and any(v != o["in"]["fill"] for row in r["cells"] for v in row)
